@@ -262,3 +262,17 @@ Theorem C04_go_winding_is_spec : forall (l : Seg ROps) (p : V2 ROps),
   @sdf_lineInfo_winding ROps (li_a a, li_b a) (li_u a) p = cross_spec l p.
 Proof. exact go_winding_is_spec. Qed.
 Print Assumptions C04_go_winding_is_spec.
+
+(* ---- inventory of mutable state (DESIGN.md 2.3).  The models above are functions of their arguments; they are
+   faithful only as long as the code keeps no state between calls beyond what they mention.  The package-level
+   variables and struct fields in the scope of C04 (and which of them are written outside construction, from which
+   entry points) are regenerated from the current source on every run (harness/stategen -> Generated/StateInv.v)
+   and contain no state beyond the expected, reviewed inventory of Sys/StateInvSpec.v, where every piece of state
+   that legitimately exists names the model component that accounts for it.  Breaks when a written package-level
+   variable, a struct field, or a write of a field outside its constructor is added in scope (coqc then prints the
+   differences); tolerates moved declarations, reordered fields, renamed locals, new helpers / constants / tables
+   nothing writes. *)
+From Sdfx Require Sys.StateInvSpec Sys.StateInvC04.
+Theorem C04_state_inventory : Sdfx.Sys.StateInvSpec.state_ok_C04 = true.
+Proof. exact Sdfx.Sys.StateInvC04.C04_state_inventory. Qed.
+Print Assumptions C04_state_inventory.
